@@ -213,11 +213,47 @@ def relational(run, seed, models, nproblems):
                 val = lnl(name, tree.rooted_with_tip(t), aln, params, mprobs)
                 if reversible:
                     expect("MoveRootBesideTip", val)
+    # edge-specific parameters CARRIED BY THE TREE (lf.get_annotated_tree()): moving the root must move every edge's
+    # parameters with the edge (time-reversible models with shared motif probs stay reversible edge by edge)
+    ncases += annotated_reroot(run, rnd, [m for m in models if MODELS[m][1] and MODELS[m][0] != "protein"])
     # wide polytomies: many children under one node (site patterns are indexed per node from the children's patterns)
     ncases += polytomy_cases(run, rnd)
     # non-vacuity of the reversibility guard: root placement DOES matter for non-reversible models
     run.note("root_matters_for_non_reversible", {m: any(v) for m, v in guards.items()})
     return ncases
+
+
+def annotated_reroot(run, rnd, models):
+    from cogent3 import get_model
+
+    n = 0
+    for name in models:
+        kind, _ = MODELS[name]
+        tree, aln, ml = random_problem(rnd, kind)
+        sm = get_model(name)
+        lf = sm.make_likelihood_function(tree)
+        lf.set_alignment(aln)
+        mp = lf.get_motif_probs()
+        pars = [p for p in lf.get_param_names() if p not in ("mprobs", "length", "psmprobs")]
+        if not pars:
+            continue
+        edges = [e.name for e in tree.get_edge_vector(include_root=False)]
+        for p in pars:
+            for e in edges:
+                lf.set_param_rule(p, edge=e, value=rnd.choice([0.3, 0.6, 1.4, 2.2, 3.5, 5.0]), is_constant=True)
+        base = lf.lnL
+        at = lf.get_annotated_tree()
+        targets = [("node", e.name) for e in at.get_edge_vector(include_root=False) if not e.is_tip()] + [("tip", "a"), ("tip", "d")]
+        for how, r in targets:
+            rt = at.rooted_at(r) if how == "node" else at.rooted_with_tip(r)
+            lf2 = sm.make_likelihood_function(rt)   # per-edge values are read from the tree
+            lf2.set_alignment(aln)
+            lf2.set_motif_probs(mp)
+            n += 1
+            if not close(lf2.lnL, base, KIND_RTOL[kind]):
+                kept = {e.name: {k: v for k, v in e.params.items() if k in pars} for e in rt.get_edge_vector(include_root=False)}
+                run.fail(f"relational:{kind}:reversible:MoveRoot:edge-parameters-on-the-tree:{how}", {"model": name, "root": r, "lnL_before": base, "lnL_after": lf2.lnL, "newick": at.get_newick(with_distances=True), "edge_params_after": kept}, what=f"lnL changed when the root of a tree carrying edge-specific parameters was moved ({name})")
+    return n
 
 
 def polytomy_cases(run, rnd):
@@ -335,6 +371,20 @@ def exact_family(run, scratch, cfg):
                 n += 1
                 if not close(lf2.lnL, base) or not close(lf2.lnL, exact):
                     run.fail("exact:MoveRoot", {"config": rec["id"], "root": r, "lnL": base, "lnL_rerooted": lf2.lnL, "exact": exact}, what="moving the root changed lnL")
+        else:
+            # per-edge parameter scopes (spec: Reroot moves every edge's instance and length WITH the edge): the real
+            # function's annotated tree carries each edge's parameters; the re-rooted tree is given back to the model
+            at = lf.get_annotated_tree()
+            aln = lf.get_param_value("alignment")
+            for r in tr["roots"]:
+                rt = at.rooted_at(r)
+                lf2 = lf.model.make_likelihood_function(rt)
+                lf2.set_alignment(aln)
+                if lf.model.name not in ("JC69", "K80"):
+                    lf2.set_motif_probs(lf.get_motif_probs())
+                n += 1
+                if not close(lf2.lnL, base) or not close(lf2.lnL, exact):
+                    run.fail("exact:MoveRoot:scoped", {"config": rec["id"], "root": r, "lnL": base, "lnL_rerooted": lf2.lnL, "exact": exact, "rerooted": rt.get_newick(with_distances=True)}, what="moving the root of a tree with per-edge parameter scopes changed lnL")
         run.sample({"config": rec["id"], "roots": tr["roots"], "splits": tr["splits"]}, limit=3)
     return n, len(seen)
 
